@@ -93,6 +93,11 @@ def run(run):
                      sample={'front': front, 'framing': framing, 'single': case['layout']['single'], 'hosted': sorted(case['layout']['units']), 'flags': case['flags'],
                              'reads': [[(u, t, m['fc']) for u, t, m in rd] for rd in case['reads']][:6], 'delivery': case.get('delivery'), 'verdict': 'one matching response per request' if ok else 'differs'},
                      sample_class=(front, framing))
+    if run.shard in (None, 0):
+        # concurrent connections of the threaded sync server, pre-empted at every source line: every connection must still get
+        # exactly the responses to its own requests (those it gets when it is alone, which the trace checker judged above)
+        from .c17 import fine_isolation
+        fine_isolation(run, r, uniq, run.scale(30, 1000), prop='C09')
     if run.thorough and run.shard in (None, 0):
         from . import loopback
         loopback.histories(run, r, uniq, 160)
@@ -104,5 +109,10 @@ def run(run):
 
 def replay(run, case):
     case['layout']['units'] = {int(k): v for k, v in case['layout']['units'].items()}
+    if 'fine_seed' in case:
+        from .c17 import fine_one
+        fine_one(run, case, case['framing'], case['fine_seed'])
+        run.evaluations += 1
+        return
     print('ok' if check(run, case) else 'differs')
     run.evaluations += 1
